@@ -191,6 +191,34 @@ def generate(rng, tier, boost):
         cases.append((1303, [pk, h, sig + b'\x00']))
         cases.append((1303, [pk, h, sig[:-1]]))
         cases.append((1303, [b'\x02' + b32(x + 1), h, sig]))
+    # signatures with tiny / short r and s that DO verify: the public key is recovered from the
+    # signature (Q = r^-1 (s R - e G)), so every DER length from 8 bytes up occurs among valid ones
+    def lift_x(x):
+        y2 = (pow(x, 3, P) + 7) % P
+        y = pow(y2, (P + 1) // 4, P)
+        return (x, y) if y * y % P == y2 else None
+    made = 0
+    for bits_r, bits_s in [(7, 7), (7, 7), (6, 3), (8, 7), (7, 8), (15, 7), (7, 16), (16, 16), (64, 7), (120, 120),
+                           (247, 247), (248, 248), (255, 7), (7, 254)] * (6 if big else 1):
+        for _try in range(40):
+            r = rng.randrange(1, 1 << bits_r)
+            s = rng.randrange(1, min(1 << bits_s, N // 2))
+            R = lift_x(r)
+            if R is None:
+                continue
+            h = rbytes(rng, 32)
+            e = int.from_bytes(h, 'big')
+            sR = ec.mul(s, R)
+            eG = ec.mul(e % N, ec.G) if e % N else None
+            neg = None if eG is None else (eG[0], (-eG[1]) % P)
+            Q = ec.mul(ec.inv(r, N), ec.add(sR, neg))
+            if Q is None:
+                continue
+            pk = ec.enc_pub(Q, rng.random() < 0.5)
+            cases.append((1303, [pk, h, ec.der(r, s)]))                 # verifies
+            cases.append((1303, [pk, h, ec.der(r, s + 1)]))             # does not
+            made += 1
+            break
     # ---- 1304 public key validity ----
     for b in pubkey_cases(rng, 2500 if big else 250):
         cases.append((1304, [b]))
